@@ -1,4 +1,7 @@
-import DimodModel.JsonString
+import DimodModel.JsonValue
+import DimodModel.DqmFile
+import DimodModel.CqmLegacy
+import DimodModel.HeaderDicts
 
 /-! Line-protocol driver of the file-format models (C09 / C10).  One operation per line:
 
@@ -17,10 +20,15 @@ import DimodModel.JsonString
     roundlabel <label>                                             -> label (serialize, deserialize)
     matchpath <hex>                                                -> hex | -
     loadsstr  <hex of a JSON string literal>                       -> hex of the string | none
+    loadsj    <hex of a JSON text>                                 -> value (i: f: s: a:[..]) | none
     enccqm  <isz> <vi> <labelsText> <objHdrText> <objExpr> <constraints>   -> members
     deccqm  <dsz> <counts> <oracle> <dirs> <members>               -> canonical
+    declegacy <ver> <counts> <oracle> <varsOracle> <dirs> <members> -> loaded members + attributes (legacy 1.x CQM)
     deccqmhdr <hdrText> <bytes>                                    -> classes (header exact, archive by contract)
     encdqm  <hdrText> <labelled> <npz> <varsText>                  -> hex
+    hdrbqm <ver> <ign> <vartype> <dsz> <isz> <lin> <low> <labels>  -> header dictionary as values; also hdrqm, hdrexpr, hdrdqm
+    encdqmm <starts|lin|low|off>                                   -> npz members + header counts
+    decdqmm <members>                                              -> content | err
     decdqm  <mode> <hdrText> <labelled> <varsText> <nlabels> <npzlen> <nvars> <bytes> -> canonical | classes
 
   `mode` = full (decode the bytes) | all (outcome class of every prefix, then the prefixes on which
@@ -150,6 +158,12 @@ partial def showFLabel : FLabel → String
   | .str s => "s:" ++ charsToHex s.toList
   | .tup l => "t:[" ++ String.intercalate "+" (l.map showFLabel) ++ "]"
 
+partial def showJVal : JVal → String
+  | .int z => s!"i:{z}"
+  | .flt r => "f:" ++ charsToHex r.toList
+  | .str s => "s:" ++ charsToHex s.toList
+  | .arr l => "a:[" ++ String.intercalate "+" (l.map showJVal) ++ "]"
+
 /-! expressions -/
 
 /-- expr = idx|off|lin|quad with idx = n,n  lin = hex,hex  quad = u:v:hex,... -/
@@ -215,6 +229,68 @@ def parseCounts (s : String) : CqmCounts :=
   | _ => { numVariables := 0, numConstraints := 0, numBiases := 0, numQuadVars := 0, numQuadVarsReal := 0,
            numLinearReal := 0, numWeighted := 0 }
 
+/-! DQM member lists:  name:descr:shape:hex ; …   (shape: `-` scalar, else dims joined by `.`) -/
+
+def showMember (m : NpyMember) : String :=
+  String.ofList m.name ++ ":" ++ String.ofList m.descr ++ ":" ++
+  (if m.shape.isEmpty then "-" else String.intercalate "." (m.shape.map toString)) ++ ":" ++ toHex m.data
+
+def parseMember (s : String) : NpyMember :=
+  match s.splitOn ":" with
+  | [n, d, sh, h] => { name := n.toList, descr := d.toList, shape := if sh = "-" then [] else (sh.splitOn ".").map String.toNat!, data := unhex h }
+  | _ => { name := [], descr := [], shape := [], data := [] }
+
+/-- content = starts|lin|low|off -/
+def parseDqm (s : String) : DqmContent :=
+  match s.splitOn "|" with
+  | [st, l, lo, o] => { caseStarts := (splitList st ",").map String.toNat!, linear := parseBytesList l, lower := parseLower lo, offset := unhex o }
+  | _ => { caseStarts := [], linear := [], lower := [], offset := [] }
+
+def showDqm (c : DqmContent) : String :=
+  showNats c.caseStarts ++ "|" ++ showBytesList c.linear ++ "|" ++ showLower c.lower ++ "|" ++ toHex c.offset
+
+def showDqmCounts (k : DqmCounts) : String :=
+  s!"{k.numVariables},{k.numCases},{k.numCaseInteractions},{k.numVariableInteractions}"
+
+/-! legacy CQM -/
+
+def showCodes : Option (List Nat) → String
+  | none => "none"
+  | some l => if l.isEmpty then "-" else String.intercalate "," (l.map toString)
+
+def showLoaded : LoadedModel Nat → String
+  | .qm m => "qm/vi=" ++ showVarInfo m.varinfo ++ "/" ++ toHex m.content.offset ++ "/" ++ showBytesList m.content.linear ++ "/" ++
+      showLower m.content.lower ++ "/" ++ showCodes m.labels
+  | .bqm m => s!"bqm/vt={m.hdr.vartype}/" ++ toHex m.content.offset ++ "/" ++ showBytesList m.content.linear ++ "/" ++
+      showLower m.content.lower ++ "/" ++ showCodes m.labels
+
+def showLegacyConstraint (c : LegacyConstraint Nat) : String :=
+  charsToHex c.lstr ++ "~" ++ showLoaded c.lhs ++ "~" ++ toHex c.rhs ++ "~" ++ toHex c.sense ++ "~" ++
+  (if c.discrete then "1" else "0") ++ "~" ++ (match c.soft with | some (w, p) => toHex w ++ ":" ++ toHex p | none => "-")
+
+def parseOptNat (s : String) : Option Nat := if s = "-" then none else some s.toNat!
+
+def parseLegacyCounts (s : String) : LegacyCounts :=
+  match s.splitOn "," with
+  | [a, b, c, d, e, f, g] => { numVariables := a.toNat!, numConstraints := b.toNat!, numBiases := c.toNat!, numQuadVars := parseOptNat d,
+                                numQuadVarsReal := parseOptNat e, numLinearReal := parseOptNat f, numWeighted := parseOptNat g }
+  | _ => { numVariables := 0, numConstraints := 0, numBiases := 0, numQuadVars := none, numQuadVarsReal := none, numLinearReal := none,
+           numWeighted := none }
+
+/-- vars oracle table: textHex=code.code.code ; … -/
+def parseVarsOracle (s : String) : List (Bytes × List Nat) :=
+  (splitList s ";").map fun e => match e.splitOn "=" with
+    | [t, c] => (unhex t, (splitList c ".").map String.toNat!)
+    | _ => ([], [])
+
+def showHeaderDict (d : HeaderDict) : String :=
+  s!"shape={d.shape.1},{d.shape.2} dtype={d.dtype} itype={d.itype} ntype={d.ntype.getD "-"} vartype={d.vartype.getD "-"} type={d.type} variables=" ++
+  (match d.variables with
+   | .flag b => if b then "T" else "F"
+   | .labels l => "[" ++ String.intercalate "+" (l.map fun v => showFLabel (deserializeLabel v)) ++ "]")
+
+def parseLabels (s : String) : List FLabel := (splitList s ";").map fun l => parseFLabel l.toList
+
 def qmKey (d : QmLoaded Nat) : VarInfo × QContent × Option (List Nat) := (d.varinfo, d.content, d.labels)
 def bqmKey (d : QLoaded Nat) : QContent × Option (List Nat) := (d.content, d.labels)
 
@@ -263,6 +339,9 @@ def handle (toks : List String) : String :=
   | ["loadsstr", h] => match loadsStr (hexToChars h) with
     | some cs => charsToHex cs
     | none => "none"
+  | ["loadsj", h] => match loadsJ (hexToChars h) with
+    | some v => showJVal v
+    | none => "none"
   | ["matchpath", h] => match matchConstraint (hexToChars h) with
     | some g => charsToHex g
     | none => "none"
@@ -279,6 +358,19 @@ def handle (toks : List String) : String :=
     let a := parseMembers members
     "dirs=" ++ (let ds := constraintDirs a; if ds.isEmpty then "-" else String.intercalate "," (ds.map charsToHex)) ++ " " ++
     errStr (cqmDecodeChecked true dsz.toNat! (parseCounts counts) (oracleTable tbl) (fun d => okd.contains d) a) showCqm
+  | ["hdrbqm", ver, ign, vt, dsz, isz, lin, low, labels] =>
+    let c : QContent := { offset := [], linear := parseBytesList lin, lower := parseLower low }
+    showHeaderDict (bqmHeaderDict ver.toNat! (ign = "1") vt.toNat! dsz.toNat! isz.toNat! c (parseLabels labels))
+  | ["hdrqm", dsz, isz, lin, low, labels] =>
+    let c : QContent := { offset := [], linear := parseBytesList lin, lower := parseLower low }
+    showHeaderDict (qmHeaderDict dsz.toNat! isz.toNat! c (parseLabels labels))
+  | ["hdrexpr", tn, dsz, isz, ex] => showHeaderDict (exprHeaderDict tn dsz.toNat! isz.toNat! (parseExpr ex))
+  | ["hdrdqm", ign, labels] => if dqmVariablesFlag (ign = "1") (parseLabels labels) then "T" else "F"
+  | ["encdqmm", content] =>
+    let c := parseDqm content
+    String.intercalate ";" ((dqmMembers c).map showMember) ++ " counts=" ++ showDqmCounts (dqmCounts c)
+  | ["decdqmm", members] =>
+    errStr (dqmFromMembers ((members.splitOn ";").map parseMember)) showDqm
   | ["encdqm", ht, labelled, npz, vt] => toHex (dqmEncode (unhex ht) (labelled = "1") (unhex npz) (unhex vt))
   | ["decdqm", mode, ht, labelled, vt, nl, npzlen, nvars, bytes] =>
     let p := dqmDecode (oracleParse (unhex ht) (labelled = "1", ())) (oracleParse (unhex vt) (List.range nl.toNat!))
@@ -286,6 +378,16 @@ def handle (toks : List String) : String :=
     if mode = "full" then
       errStr (p.run (unhex bytes)) fun r => "npz=" ++ toString r.1.2.1.length ++ " labels=" ++ showLabels r.1.2.2 ++ s!" rest={r.2.length}"
     else allPrefixes (fun (r : Unit × Bytes × Option (List Nat)) => (r.2.1, r.2.2)) p p (unhex bytes)
+  | ["declegacy", ver, counts, oracle, varsOracle, dirs, members] =>
+    let v := (ver.splitOn ".").map String.toNat!
+    let okd := (splitList dirs ",").filterMap fun e => match e.splitOn ":" with
+      | [d, "1"] => some (hexToChars d)
+      | _ => none
+    let a := parseMembers members
+    errStr (legacyDecodeChecked true id v (parseLegacyCounts counts) (oracleTable (parseOracle oracle))
+        (oracleTable (parseVarsOracle varsOracle)) (fun d => okd.contains d) a)
+      fun m => "obj=" ++ showLoaded m.objective ++ " cons=" ++
+        (if m.constraints.isEmpty then "-" else String.intercalate "^" (m.constraints.map showLegacyConstraint))
   | ["deccqmhdr", ht, bytes] =>
     -- CQM: the header reader, then the zip contract: only the complete archive opens
     let bs := unhex bytes
